@@ -4,7 +4,7 @@ from props import _finish as F
 ID = "C01"
 COQ_TARGETS = ["Exec/Kin.vo", "Exec/Finish.vo", "Gen/Inverse.vo", "Properties/C01.vo"]
 THEOREMS = ["C01_inverse_sound", "C01_continuing_sound", "C01_inverse_5dof_sound", "C01_continuing_5dof_sound",
-            "C01_concrete_inverse", "C01_concrete_continuing", "C01_concrete_inverse_5dof", "C01_concrete_continuing_5dof"]
+            "C01_concrete_inverse", "C01_concrete_continuing", "C01_concrete_inverse_5dof", "C01_concrete_continuing_5dof", "C01_unreachable_empty"]
 LEVEL_TEXT = ("Coq theorems: every answer of the four entry points realises the requested pose (within the solver's accuracy) given the "
               "kernel contract (kernel rows are FK-cross-checked) and the FK verdict on singular candidates; answers adopted from a "
               "0.125 um shifted pose only when the unshifted pose has no kernel answer.  End to end (C01_concrete_*): for the concrete "
